@@ -34,8 +34,9 @@ impl TryFrom<String> for BuildpackVersion {
         match value
             .split('.')
             .map(|s| {
-                // The spec forbids redundant leading zeros.
-                if s.starts_with('0') && s != "0" {
+                // The spec forbids redundant leading zeros. Only plain digits are allowed:
+                // `u64::from_str` on its own would also accept a leading `+`.
+                if (s.starts_with('0') && s != "0") || !s.bytes().all(|b| b.is_ascii_digit()) {
                     None
                 } else {
                     s.parse().ok()
